@@ -614,6 +614,14 @@ fn run_scase(id: u64, g: &SCase, peers: &[Peer], local_key_bytes: &[u8]) -> Case
         if g.auto_nat { Some(Duration::from_secs(300)) } else { None },
         64,
     );
+    // in a quarter of the cases the event stream overflows once before the votes arrive (a burst of
+    // other events while the application is busy) and is then read empty: later changes of the
+    // address must still be announced
+    if id % 4 == 1 {
+        svc.burst_of_events(64 + 6);
+        let _ = svc.socket_events();
+        hist.add("service:event_stream_overflowed_before_the_votes");
+    }
     let base = Instant::now();
     let t = |base: &Instant| base.elapsed().as_nanos() as u64;
     let init = enr_view(&svc.local_enr());
